@@ -129,6 +129,14 @@ func (e *p2pEnv) rangeReply(beh string, o, a uint64, have int) peers.Reply {
 			hs[i] = &vhdr.Header{Chain: c.Chain, H: c.H, T: c.T, Prev: c.Prev, Salt: 5, PV: true}
 		}
 		return peers.Reply{Kind: "ok", Headers: hs}
+	case "panickyverify": // a header that decodes and validates, and on which the header type's own Verify panics
+		hs := get(o, a)
+		if len(hs) > 0 {
+			i := arg % len(hs)
+			c := hs[i]
+			hs[i] = &vhdr.Header{Chain: c.Chain, H: c.H, T: c.T, Prev: c.Prev, Salt: c.Salt, VK: vhdr.VKPanic}
+		}
+		return peers.Reply{Kind: "ok", Headers: hs}
 	case "oversized":
 		return peers.Reply{Kind: "ok", Headers: get(o, a+2)}
 	case "status":
@@ -263,7 +271,7 @@ func (e *p2pEnv) sessionCase(prop string, from, to uint64, chunk uint64, ps []se
 	emit("%s from=%d to=%d chunk=%d peers=%s => res=%s err=%s trace=%s", prop, from, to, chunk, strings.Join(pd, ","), r, ec, trs)
 }
 
-var byzantine = []string{"panicky:0", "panicky:1", "shift:1", "shift:5", "dup", "reorder", "gapped", "forged:0", "forged:1", "wrongchain", "wrongchaincase", "oversized", "status", "garbage", "notfound", "empty", "reset", "hang", "prefix:1", "prefix:2"}
+var byzantine = []string{"panicky:0", "panicky:1", "panickyverify:0", "panickyverify:1", "shift:1", "shift:5", "dup", "reorder", "gapped", "forged:0", "forged:1", "wrongchain", "wrongchaincase", "oversized", "status", "garbage", "notfound", "empty", "reset", "hang", "prefix:1", "prefix:2"}
 var benign = []string{"slow", "partialreset:1", "partialreset:2", "notfound", "prefix:1", "prefix:2", "prefix:3", "hang", "reset", "empty"}
 
 func runSession(prop, tier string, r *rng) {
@@ -321,7 +329,7 @@ func runSession(prop, tier string, r *rng) {
 		}
 		// the same Byzantine answers against a client that was built WITHOUT a connection gater
 		e.nilGater = true
-		for _, b := range []string{"forged:0", "shift:1", "garbage", "wrongchain", "wrongchaincase", "panicky:0"} {
+		for _, b := range []string{"forged:0", "shift:1", "garbage", "wrongchain", "wrongchaincase", "panicky:0", "panickyverify:1"} {
 			e.sessionCase(prop, 5, 14, 3, []sessPeer{{have: 100, behs: []string{b, b}}, {have: 100}}, 700)
 		}
 		e.nilGater = false
